@@ -564,6 +564,22 @@ func suiteAsm(tier string, seed uint64, model string) *Report {
 		&asmCase{[]*AArg{call(fixed, "set", path(R, C("asm"), C("a")), &AArg{Kind: "c", Fn: "gte", Name: ">=", Args: []*AArg{call(fixed, "sum", lit(int64(1)), lit(int64(1))), lit(int64(2))}})}, map[string]any{"src": nil}, nil},
 		&asmCase{[]*AArg{call(fixed, "set", path(R, C("asm"), C("a")), call(fixed, "cond", &AArg{Kind: "c", Fn: "list", Name: "list", Args: []*AArg{lit(true), lit([]any{int64(1), int64(2)})}}))}, map[string]any{"src": nil}, nil},
 	)
+	// equality of containers: same size, different keys, null values; nested
+	eqPairs := [][2]any{
+		{map[string]any{"a": nil}, map[string]any{"b": nil}}, {map[string]any{"a": nil}, map[string]any{"a": nil}},
+		{map[string]any{"a": int64(1), "b": nil}, map[string]any{"a": int64(1), "c": nil}},
+		{[]any{map[string]any{"x": map[string]any{"a": nil}}}, []any{map[string]any{"x": map[string]any{"b": nil}}}},
+		{map[string]any{"a": int64(1)}, map[string]any{"a": int64(1), "b": nil}}, {[]any{nil}, []any{}}, {[]any{nil, int64(1)}, []any{int64(1), nil}},
+		{map[string]any{}, map[string]any{"a": nil}}, {map[string]any{"a": []any{nil}}, map[string]any{"a": []any{nil}}},
+	}
+	for _, pr := range eqPairs {
+		for _, fn := range []string{"eq", "neq"} {
+			cases = append(cases,
+				&asmCase{[]*AArg{call(fixed, "set", path(R, C("asm"), C("r")), call(fixed, fn, lit(pr[0]), path(R, C("src"))))}, map[string]any{"src": pr[1]}, nil},
+				&asmCase{[]*AArg{call(fixed, "set", path(R, C("asm"), C("r")), call(fixed, fn, path(R, C("src")), lit(pr[0])))}, map[string]any{"src": pr[1]}, nil},
+				&asmCase{[]*AArg{call(fixed, "set", path(R, C("asm"), C("r")), call(fixed, fn, lit(pr[0]), lit(pr[1])))}, map[string]any{"src": nil}, nil})
+		}
+	}
 	for i := 0; i < n; i++ {
 		ns := 1 + r.Intn(4)
 		c := &asmCase{}
